@@ -2,6 +2,10 @@
 from facts import Sym, path_is, strip_generics, strip_sym, sym_arg, sym_calls, sym_is_call, sym_str, sym_through, sym_walk
 from props.common import arg_syms, atomic_ops, bool_switches, callee_method_name, calls_to, crate_stats, gates, in_cycle, kind_consistent, need, nonforeign_calls, one_method, orderings_in, siblings_isomorphic
 
+KEEP = [  # private helpers the rules name (kept as functions); every other non-exported, non-trait function is spliced into its callers
+    "AtomicBucketInstant::new", "Block::new", "CompositeKeyName::new", "Generational::new",
+    "Inner::get_recent_metrics", "Inner::new", "MetricKindMask::value", "Recency::should_store",
+]
 TITLE = "C12 idle metrics are dropped exactly when idle longer than the timeout."
 CONFIGS = ["test-profile", "util-recency"]
 REC = "metrics_util::registry::recency::Recency"
